@@ -37,7 +37,7 @@ type pauseCase struct {
 }
 
 const pauseHeader = `From Coq Require Import List NArith Bool.
-From GS Require Import Base Ltree RecLoader ReqExec PauseExec C06Guard.
+From GS Require Import Base Ltree RecLoader ReqExec PauseExec C06Guard ResponderPauseCheck.
 Import ListNotations.
 Open Scope N_scope.
 `
